@@ -3007,6 +3007,44 @@ impl QueryJob {
                                     .execute_query_with_rules_tuples_on(&kg_name, &query_rule)
                                     .map_err(|e| e.to_string())?;
 
+                                // Validate every tuple the update would insert against the schema
+                                // of its target relation before touching any data (all or nothing,
+                                // like `+r[...]`).
+                                let mut rejected = None;
+                                'validate: for result_tuple in &results {
+                                    for target in &op.inserts {
+                                        let tuple_vals: Option<Vec<Value>> = target
+                                            .args
+                                            .iter()
+                                            .map(|arg| match arg {
+                                                Term::Variable(v) => all_vars
+                                                    .iter()
+                                                    .position(|var| var == v)
+                                                    .and_then(|idx| result_tuple.get(idx).cloned()),
+                                                other => term_to_value(other).ok(),
+                                            })
+                                            .collect();
+                                        if let Some(vals) = tuple_vals {
+                                            if let Err(e) = storage.validate_tuples_in(
+                                                &kg_name,
+                                                &target.relation,
+                                                &[Tuple::new(vals)],
+                                            ) {
+                                                rejected = Some(format!(
+                                                    "Update rejected for '{}': {}",
+                                                    target.relation, e
+                                                ));
+                                                break 'validate;
+                                            }
+                                        }
+                                    }
+                                }
+                                if let Some(msg) = rejected {
+                                    messages.push(msg);
+                                    current_stmt.clear();
+                                    continue;
+                                }
+
                                 let mut deleted = 0;
                                 let mut inserted = 0;
 
